@@ -141,6 +141,10 @@ func (vc *VC) assume(pc, fact string) {
 
 // oblige records an obligation: under the facts so far, pc implies goal.
 func (vc *VC) oblige(name, kind, fn, pos, desc, pc, goal string) *Obligation {
+	if vc.quiet > 0 {
+		// obligations are never generated from specification-level evaluation
+		return &Obligation{Name: name, vc: vc}
+	}
 	// unique names
 	base := name
 	n := 0
